@@ -36,6 +36,7 @@ import (
 	"io/ioutil"
 	"math/rand"
 	"os"
+	"runtime/debug"
 	"strings"
 	"testing"
 	"time"
@@ -82,6 +83,7 @@ func vC04Corrupt() []byte {
 type vC04Run struct {
 	srv    *vksServer
 	events []map[string]interface{}
+	orig   []int64 // virtual timestamp (ns) of the copy placed on each volume (0 = none)
 }
 
 func (r *vC04Run) log(ev map[string]interface{}) { r.events = append(r.events, ev) }
@@ -150,6 +152,13 @@ func (r *vC04Run) populate(scn *vC04Scn) {
 				s.placeTrash(k, vC04Hash, vC04Block, -1, -(vC04TTL + 1))
 			}
 		}
+		var vns int64
+		if fi, err := os.Stat(s.blockPath(k, vC04Hash)); err == nil {
+			vns = fi.ModTime().UnixNano() + int64(s.shift)
+		} else {
+			vns = s.base.Add(-time.Duration(vC04TTL+1) * vksUnit).UnixNano()
+		}
+		r.orig = append(r.orig, vns)
 	}
 }
 
@@ -179,7 +188,11 @@ func (r *vC04Run) requestStamp(rv int, stale bool) (int64, string) {
 var vC04Prefixes = map[string]string{"Compare": "w", "Touch": "w", "WriteBlock": "w", "Trash": "t", "Mtime": "t",
 	"Untrash": "x", "EmptyTrash": "x"}
 
-const vC04BlockedAfter = 400 * time.Millisecond
+// an actor that neither parks nor finishes within this time is taken to be blocked (flock / mutex held by
+// another actor); in the unchanged code the model never schedules a blocked actor, so this only
+// matters for modified code
+const vC04BlockedAfter = 1500 * time.Millisecond
+const vC04StartWait = 20 * time.Second
 
 func (r *vC04Run) runSchedule(scn *vC04Scn, alphabet map[string]bool) {
 	s := r.srv
@@ -219,6 +232,7 @@ func (r *vC04Run) runSchedule(scn *vC04Scn, alphabet map[string]bool) {
 		order = append(order, "x")
 	}
 	mism, unused, blocked := 0, 0, 0
+	stuck := map[string]bool{}
 
 	noteDone := func(name string) {
 		a := actors[name]
@@ -238,7 +252,13 @@ func (r *vC04Run) runSchedule(scn *vC04Scn, alphabet map[string]bool) {
 		var reqNs int64
 		tok := "0"
 		if a.op == "trashlist" {
-			reqNs, tok = r.requestStamp(scn.RV, scn.TK == "list_stale")
+			// the item names the timestamp the copy on volume rv had INITIALLY (as the model's item does),
+			// expressed in today's real time: stored timestamps have moved back by the clock shift since
+			vns := r.orig[scn.RV-1]
+			if scn.TK == "list_stale" {
+				vns--
+			}
+			reqNs, tok = vns-int64(s.shift), fmt.Sprintf("%d", vns)
 		}
 		r.log(map[string]interface{}{"ev": "call", "id": a.id, "op": a.op, "mount": 0, "req": tok})
 		go func() {
@@ -246,7 +266,7 @@ func (r *vC04Run) runSchedule(scn *vC04Scn, alphabet map[string]bool) {
 			a.status <- st
 			sched.actorDone(name)
 		}()
-		if l, _ := sched.await(name, vC04BlockedAfter); l == "done" {
+		if l, _ := sched.await(name, vC04StartWait); l == "done" {
 			noteDone(name)
 		} else if l == "" {
 			blocked++
@@ -265,16 +285,24 @@ func (r *vC04Run) runSchedule(scn *vC04Scn, alphabet map[string]bool) {
 			start(name)
 			return
 		}
-		l, _ := sched.await(name, vC04BlockedAfter)
+		// an actor found blocked stays blocked until the holder moves: do not wait long for it again
+		wait := vC04BlockedAfter
+		if stuck[name] {
+			wait = 20 * time.Millisecond
+		}
+		l, _ := sched.await(name, wait)
 		switch l {
 		case "done":
+			stuck[name] = false
 			noteDone(name)
 			unused++
 			return
 		case "":
+			stuck[name] = true
 			blocked++
 			return
 		}
+		stuck[name] = false
 		if l != want {
 			mism++
 		}
@@ -282,12 +310,23 @@ func (r *vC04Run) runSchedule(scn *vC04Scn, alphabet map[string]bool) {
 		if l2, _ := sched.await(name, vC04BlockedAfter); l2 == "done" {
 			noteDone(name)
 		} else if l2 == "" {
+			stuck[name] = true
 			blocked++
 		}
 	}
 
 	for _, st := range scn.Steps {
 		if st.A == "tick" {
+			// the clock is moved by rewriting stored timestamps: no actor may be running meanwhile.
+			// (An actor taken for blocked only because the machine stalled is waited for here; one that
+			// really sits in flock - modified code, lock probes - does not touch timestamps.)
+			for _, name := range order {
+				if a := actors[name]; a.started && !a.retd {
+					if l, _ := sched.await(name, 5*time.Second); l == "done" {
+						noteDone(name)
+					}
+				}
+			}
 			s.tick(st.V)
 			r.log(map[string]interface{}{"ev": "tick", "d": st.V})
 			continue
@@ -389,6 +428,8 @@ func (r *vC04Run) runRandom(scn *vC04Scn, rnd *rand.Rand) {
 }
 
 func TestVerifC04(t *testing.T) {
+	// every handler request takes a 64 MiB buffer from a sync.Pool that each GC empties: collect rarely
+	defer debug.SetGCPercent(debug.SetGCPercent(1000))
 	ctxlog.SetLevel("panic")
 	var scns []*vC04Scn
 	vReadNDJSON(os.Getenv("VERIF_SCENARIOS"), func() interface{} {
